@@ -1135,11 +1135,6 @@ theorem trimGo_spec (numCoords : Nat) : ∀ (d : Bytes) (i cb cwf k : Nat),
 
 /-! ### subset_composite_glyph -/
 
-/-- byte length of the component record whose (truncated) flag word is `f` -/
-def compRecSize (f : Nat) : Nat :=
-  4 + (if f &&& 0x0001 != 0 then 4 else 2) +
-  (if f &&& 0x0008 != 0 then 2 else if f &&& 0x0040 != 0 then 4 else if f &&& 0x0080 != 0 then 8 else 0)
-
 /-- the component glyph ids of a composite record, walking the records the way the subsetter (and
 read-fonts) does; `none` when a record header does not fit -/
 def compIds (d : Bytes) (len : Nat) : Nat → Nat → Option (List Nat)
@@ -1356,4 +1351,76 @@ theorem compLoop_spec (flags : Nat) (gmap : Nat → Option Nat) (len : Nat) :
           · rw [List.mapM_cons, hnew]; rfl
           · unfold compIds
             simp only [hbound, if_false, hread3, hgid3, hm]; rfl
+
+/-- the components read-fonts iterates (closure) are a prefix of the components the rewriter walks -/
+theorem compIterGo_prefix (d : Bytes) : ∀ (fuel i : Nat) (ids : List Nat),
+    compIds d d.length fuel i = some ids → compIterGo d fuel i <+: ids := by
+  intro fuel
+  induction fuel with
+  | zero => intro i ids h; simp [compIds] at h
+  | succ n ih =>
+    intro i ids h
+    unfold compIds at h
+    split at h
+    · cases h
+    · simp only at h
+      unfold compIterGo
+      simp only
+      split
+      · exact List.nil_prefix
+      · split at h
+        · rename_i hm
+          cases hrest : compIds d d.length n (i + compRecSize (u16At d i &&& COMPOSITE_KNOWN_BITS)) with
+          | none => simp [hrest] at h
+          | some rest =>
+            simp [hrest] at h
+            subst h
+            simp only [hm, if_true]
+            exact List.prefix_cons_inj _ |>.mpr (ih _ rest hrest)
+        · rename_i hm
+          simp at h
+          subst h
+          simp only [hm, if_false]
+          exact List.prefix_refl _
+
+
+/-! ### subset_simple_glyph -/
+
+theorem sliceGet_zero (d : Bytes) (k : Nat) (t : Bytes) (h : sliceGet d 0 k = some t) : t = d.take k ∧ k ≤ d.length := by
+  unfold sliceGet at h
+  split at h
+  · rename_i hc; simp at h; subst h; simp; exact hc.2
+  · cases h
+
+theorem take_three (d : Bytes) (a b c : Nat) :
+    d.take a ++ (d.drop a).take b ++ (d.drop (a + b)).take c = d.take (a + b + c) := by
+  rw [List.take_add, List.take_add]
+
+/-- without NO_HINTING / SET_OVERLAPS the rewritten simple glyph is a prefix of the input record -/
+theorem subsetSimple_prefix (flags : Nat) (d : Bytes) (nc : Nat) (out : Bytes) (il k : Nat)
+    (hil : il = u16At d (10 + 2 * nc))
+    (hk : k = trimSimpleGlyphPadding (d.drop (12 + 2 * nc + il)) (u16At d (10 + 2 * (nc - 1)) + 1))
+    (hf1 : hasFlag flags F_NO_HINTING = false) (hf2 : hasFlag flags F_SET_OVERLAPS = false)
+    (h : subsetSimple flags d nc = .bytes out) (hne : out ≠ []) :
+    out = d.take (12 + 2 * nc + il + k) ∧ k ≠ 0 ∧ 12 + 2 * nc + il + k ≤ d.length := by
+  subst hil
+  unfold subsetSimple at h
+  split at h
+  · simp at h; exact absurd h hne
+  · have e1 : 10 + 2 * nc + 2 = 12 + 2 * nc := by omega
+    have e3 : 12 + 2 * nc - 2 = 10 + 2 * nc := by omega
+    simp only [hf1, hf2, e1, e3, Bool.false_eq_true, if_false] at h
+    rw [← hk] at h
+    split at h
+    · simp at h; exact absurd h hne
+    · rename_i hk0
+      split at h
+      · simp at h; exact absurd h hne
+      · rename_i t ht
+        obtain ⟨ht1, ht2⟩ := sliceGet_zero _ _ _ ht
+        simp only [GlyphRes.bytes.injEq] at h
+        refine ⟨?_, hk0, ?_⟩
+        · rw [← h, ht1]; exact take_three d _ _ _
+        · simp only [List.length_drop] at ht2; omega
+
 end FontVerif.Subset
